@@ -1,6 +1,6 @@
 """
 Bounded stand-in (labelled bounded): event schedules on kundur_full built through the public API -- toggles on and off the step grid,
-two models with coincident times, a fault with clearance, a parameter alteration, a disabled event, an event beyond tf.  Every timer
+two models with coincident times, a fault with clearance, overlapping faults, a parameter alteration, a disabled event, an event beyond tf.  Every timer
 callback is wrapped by a recorder.  Checked: each enabled event with 0 < t <= tf acts exactly once, at a step that ends exactly at its
 time, on exactly the addressed device; disabled events and events beyond tf never act; time stamps increase strictly; the run ends at tf.
 """
@@ -60,6 +60,8 @@ def run():
           ('Toggle', dict(model='Line', dev='Line_3', t=0.7))]),
         ('a fault is cleared at the instant another one is applied', 1.0,
          [('Fault', dict(bus=7, tf=0.3, tc=0.5, xf=0.05)), ('Fault', dict(bus=9, tf=0.5, tc=0.6, xf=0.05))]),
+        ('overlapping faults on two buses: the second is applied and cleared while the first is on', 1.0,
+         [('Fault', dict(bus=7, tf=0.3, tc=0.6, xf=0.05)), ('Fault', dict(bus=9, tf=0.4, tc=0.5, xf=0.05))]),
         ('an event late in a long run (relative tolerances grow with time)', 12.4,
          [('Toggle', dict(model='Line', dev='Line_8', t=12.0)), ('Toggle', dict(model='Line', dev='Line_8', t=12.25))]),
         ('event times that are not multiples of any decimal grid', 1.2,
@@ -102,6 +104,16 @@ def run():
             u_now = float(ss.Line.get('u', dev, 'v'))
             if u_now != float((1 + k) % 2):
                 return n, dict(what, observed='%s was toggled %d time(s) from in service, its status is now %r' % (dev, k, u_now))
+        # ... and is on from its own tf to its own tc, whatever other faults do meanwhile: the faulted bus stays depressed in between
+        ys = np.array(ss.dae.ts.y)
+        for m, p in extra:
+            if m == 'Fault' and p.get('u', 1) != 0:
+                a = ss.Bus.get('v', p['bus'], 'a')
+                inside = (t > p['tf']) & (t < min(p['tc'], tf))
+                if inside.any() and ys[inside, a].max() >= 0.75 * ys[0, a]:
+                    k = int(np.argmax(np.where(inside, ys[:, a], -1.0)))
+                    return n, dict(what, observed='the fault on bus %r lasts from %r to %r, yet at t = %r the bus voltage is %.3f (%.3f before the fault)' % (
+                        p['bus'], p['tf'], p['tc'], float(t[k]), float(ys[k, a]), float(ys[0, a])))
         fk = 0
         for m, p in extra:
             if m == 'Fault':
